@@ -6,6 +6,7 @@ import (
 	"encoding/json"
 	"fmt"
 	"io"
+	"math"
 	"net"
 	"net/http"
 	"net/http/pprof"
@@ -241,7 +242,7 @@ func (s *httpServer) doPUB(w http.ResponseWriter, req *http.Request, ps httprout
 	if ds, ok := reqParams["defer"]; ok {
 		var di int64
 		di, err = strconv.ParseInt(ds[0], 10, 64)
-		if err != nil {
+		if err != nil || di < 0 || di > math.MaxInt64/int64(time.Millisecond) {
 			return nil, http_api.Err{400, "INVALID_DEFER"}
 		}
 		deferred = time.Duration(di) * time.Millisecond
